@@ -198,6 +198,7 @@ OPS = [
   ("custom_form_label_case_variant_of_called_form", "*", lambda items, info, rng: (bm.sec(items, "Potential-Form")[1].insert(0, ["Other(r, k)", "777.0 + 0*r"]), (items, "other(r, k)", "Other(r, k)"))[1]),
   ("table_form_label_case_variant_of_custom_form", "*", table_named(lambda rng: rng.choice(["CF", "Other", "OTHER"]))),
   ("table_form_labels_differ_only_in_case", "*", table_named(lambda rng: rng.choice(["TBL", "Tbl"]))),
+  ("table_form_label_case_variant_of_pymath_function", "*", table_named(lambda rng: rng.choice(["PYMATH.FLOOR", "Pymath.Ceil", "pymath.EXP", "PyMath.sqrt"]))),
   ("table_form_label_case_variant_of_builtin", "*", table_named(lambda rng: rng.choice(["AS.bornmayer", "as.Morse", "As.buck4"]))),
   # a label that the expression language already uses for one of its own functions (also in another case): a formula
   # calling it gets the built-in, not the definition the user can see
